@@ -19,6 +19,7 @@ import itertools
 import re
 
 from mc.gen import ex_schemas as S
+from mc.gen import ex_varmatrix as V
 from mc.gen import mutations as M
 from mc.gen import operations as O
 
@@ -38,6 +39,7 @@ RULE = (
 )
 ASSUMPTIONS = [
     "a document on which validate_ast raises is left to C05 (counted, not reported here)",
+    "variable wrapper matrix: the expected verdict is the specification's IsVariableUsageAllowed / AreTypesCompatible transliterated in mc.gen.ex_varmatrix (self-tested on the spec's examples)",
     "the verdict compared across a metamorphic class is empty / non-empty, not the error texts",
     "directives on variable definitions (py_gql's documented extension of the June-2018 grammar) are treated like any other directive location for the KnownDirectives label",
     "documents with type-system definitions are parsed with allow_type_system=True",
@@ -90,6 +92,10 @@ def cases(tier):
             cnt = len(gen(name).sets(S.SCHEMAS[name][root], n, 3))
             for idx in range(cnt):
                 yield {"k": "valid-base", "t": tier, "schema": name, "root": root, "n": n, "idx": idx}
+    for placement in V.PLACEMENTS:
+        n = sum(1 for _ in V.matrix(placement))
+        for j in range(0, n, 64):
+            yield {"k": "var-matrix", "t": tier, "placement": placement, "from": j, "to": min(n, j + 64)}
     seeds = _labelled_seeds(b["labelled_seed_nodes"])
     for i in range(len(seeds)):
         name, case = seeds[i]
@@ -590,6 +596,15 @@ def _check_case(case, st):
     k = case["k"]
     st.n("kind:" + k)
     out = []
+    if k == "var-matrix":
+        # variable type x position type over 8 wrappers; expected verdict from the specification's
+        # IsVariableUsageAllowed (mc.gen.ex_varmatrix); invalid pairs must be attributed to the rule
+        for j, (tag, ok, c) in enumerate(V.matrix(case["placement"])):
+            if not (case["from"] <= j < case["to"]):
+                continue
+            _v, _e, got = check_base("W", c["doc"], None if ok else "VariablesInAllowedPositionChecker", tag, st)
+            out.extend(got)
+        return out
     if k == "valid-hand":
         name, c = M.hand_seeds()[case["i"]]
         return evaluate(name, c, None, None, st, b)
@@ -664,6 +679,7 @@ def replay(witness):
 
 
 def selftest():
+    V.selftest()
     # every rule of the specification has at least one labelled operator
     missing = set(rule_classes()) - set(M.RULES)
     assert not missing, "rules without a labelled operator: %s" % sorted(missing)
